@@ -259,9 +259,12 @@ int main() {
         printf("parse %u %u |%s|\n--\n", ntohl(addr.ipv4NetEndian()), addr.port(), addr.toIpPort().c_str());
       else
         printf("parse v6\n--\n");
-    } else if (op == "ip6" && w.size() == 3) {
+    } else if (op == "ip6" && (w.size() == 3 || w.size() == 4)) {
       uint16_t p = static_cast<uint16_t>(unum(w[2]));
       InetAddress addr(w[1], p, true);
+      // 4th word: sin6_scope_id (what accept()/getpeername() return for link-local peers; InetAddress::setScopeId).
+      // The text forms are those of inet_ntop: they do not show a scope and parse back with inet_pton.
+      if (w.size() == 4) addr.setScopeId(static_cast<uint32_t>(unum(w[3])));
       const struct sockaddr_in6* s6 = reinterpret_cast<const struct sockaddr_in6*>(addr.getSockAddr());
       char nt[64] = ""; inet_ntop(AF_INET6, &s6->sin6_addr, nt, sizeof nt);
       printf("< v6 %s\n", nt);
